@@ -133,7 +133,7 @@ fn lattice(ctx: &mut Ctx, max_total: usize) {
 }
 
 pub fn run(ctx: &mut Ctx) {
-    ctx.rule = "ontology part: case = (labelled DAG, annotated subset S[, emptied kind]) with totals 3 genes / 2 OMIM / 1 ORPHA; setter part: case = one N with every n <= N; distinct by construction; non-trivial = some annotated term has ancestors, resp. 0 < n < N".into();
+    ctx.rule = "ontology part: case = (labelled DAG, annotated subset S[, emptied kind]) with totals 3 genes / 2 OMIM / 4 ORPHA; setter part: case = one N with every n <= N; distinct by construction; non-trivial = some annotated term has ancestors, resp. 0 < n < N".into();
     ctx.assumptions = vec![
         "f32 values compared with atol 1e-6 + rtol 1e-5 against -ln(n/N) computed in f64; sign, finiteness and the zero rules strictly".into(),
         "N <= 65535 (documented limit of the f32 conversion)".into(),
@@ -168,7 +168,7 @@ pub fn run(ctx: &mut Ctx) {
                 let mut all_on: Vec<crate::model::AnnFact> = full.clone();
                 for i in 0..n {
                     if s >> i & 1 == 1 {
-                        for rec in [super::common::G1, super::common::G2, super::common::G3, super::common::O1, super::common::O2, super::common::R1] {
+                        for rec in [super::common::G1, super::common::G2, super::common::G3, super::common::O1, super::common::O2, super::common::R1, super::common::R2, super::common::R3, super::common::R4] {
                             all_on.push(Facts::ann(rec.0, rec.1, rec.2, Some(ids[i])));
                         }
                     }
